@@ -1,6 +1,6 @@
 """C16 -- every usable local-store configuration works; data dirs are independent views."""
 import re
-from contracts import store_local
+from contracts import store_local, set_store
 
 ID = "C16"
 LEVEL = "other"
@@ -23,7 +23,7 @@ REPLAY = {
     "LocalFileStore.__init__#ensures:link_targets_are_absolute": "h_store.relative_internal_dir",
     "LocalFileStore.__init__#ensures:path_locations_survive_a_change_of_working_directory": "h_store.relative_internal_dir",
 }
-_OWN = re.compile(r"^LocalFileStore\.(__init__|sync_paths|fetch_paths)#")
+_OWN = re.compile(r"^(LocalFileStore\.(__init__|sync_paths|fetch_paths)#|set_store#)")
 
 
 def owns(name, kind):
@@ -31,4 +31,10 @@ def owns(name, kind):
 
 
 def specs():
-    return [store_local.Local_init(), store_local.Local_sync_paths(), store_local.Local_fetch_paths()]
+    return [store_local.Local_init(), store_local.Local_sync_paths(), store_local.Local_fetch_paths()] + [c() for c in set_store.CACHE_SPECS]
+
+
+def bounded(tier, seed, pr):
+    from pyvc.boundedrun import run_bounded
+
+    return [run_bounded(pr, "b_config.py", "local_store_configurations")]
